@@ -106,12 +106,14 @@ Definition decide (ff : ffid) (pos : position) (g : group) (below : bool) : outc
       else Keep false
   | GCYS =>
       if ge then
-        if ff_eqb ff Charmm then Keep true
+        if mem_ff ff [Charmm; Peoepb]
+           || ((is_n_term pos || is_c_term pos) && mem_ff ff [Amber; Tyl06; Swanson]) then Keep true
         else Patch P_CYM
       else Keep false
   | GGLU =>
       if lt then
-        if is_c_term pos && mem_ff ff [Amber; Tyl06; Swanson] then Keep true
+        if ff_eqb ff Peoepb then Keep true
+        else if is_c_term pos && mem_ff ff [Amber; Tyl06; Swanson] then Keep true
         else if is_n_term pos && mem_ff ff [Amber; Tyl06; Swanson] then Keep true
         else Patch P_GLH
       else Keep false
@@ -119,9 +121,9 @@ Definition decide (ff : ffid) (pos : position) (g : group) (below : bool) : outc
       if lt then Patch P_HIP else Keep false
   | GLYS =>
       if ge then
-        if ff_eqb ff Charmm then Keep true
+        if mem_ff ff [Charmm; Peoepb] then Keep true
         else if mem_ff ff [Amber; Tyl06; Swanson] && is_c_term pos then Keep true
-        else if ff_eqb ff Tyl06 && is_n_term pos then Keep true
+        else if mem_ff ff [Amber; Tyl06; Swanson] && is_n_term pos then Keep true
         else Patch P_LYN
       else Keep false
   | GTYR =>
